@@ -124,6 +124,7 @@ var vkProbes = []vkProbe{
 	{".", dns.TypeNS},
 	{"www.v.t.", dns.TypeAAAA}, // NODATA in the victim zone
 	{"nx.v.t.", dns.TypeA},     // NXDOMAIN in the victim zone
+	{vkDotName, dns.TypeA},     // a TLD name that textually ends in the attacker's zone (escaped dot in its first label)
 }
 
 var vkAttServers = map[string]bool{vkAttZone: true, vkAttChild: true}
@@ -734,6 +735,14 @@ func (w *vkWorld) vkRunOnce(s vkScenario) vkRunResult {
 			fail(fmt.Sprintf("attacker-zone query %s", st.Q), v)
 		}
 	}
+	// The attacker's servers answer the look-alike name authoritatively with poison whenever they are asked
+	// for it; a resolver that keeps to the name space never asks them (the name belongs to t.).
+	w.sim.Script(authsim.Key{Server: vkAttZone, QName: zonemodel.Canon(vkDotName), QType: dns.TypeA, Occ: -1}, func(q authsim.Query, h *dns.Msg) authsim.Action {
+		h.Rcode, h.Authoritative = dns.RcodeSuccess, true
+		h.Ns, h.Extra = nil, nil
+		h.Answer = []dns.RR{&dns.A{Hdr: dns.RR_Header{Name: vkDotName, Rrtype: dns.TypeA, Class: dns.ClassINET, Ttl: 300}, A: net.ParseIP(vkPoisonA)}}
+		return authsim.Action{Msg: h, Changed: true}
+	})
 	probes := append([]vkProbe{}, vkProbes...)
 	seen := map[string]bool{}
 	for _, p := range probes {
